@@ -108,7 +108,10 @@ class BaseRef(object):
             except RefExc as e:
                 # DictMixin.update: "except AttributeError: for key, value in other" -- an AttributeError raised by
                 # a setter is taken for "other has no items()" and the dict's KEYS are then unpacked as pairs
-                if e.cls != "AttributeError" or not ACTIVE.get("dictmixin-update-masks-attributeerror", True):
+                # (a list of pairs has no items() to begin with: the setter's AttributeError then comes from the
+                # pair loop itself and propagates)
+                if e.cls != "AttributeError" or not ACTIVE.get("dictmixin-update-masks-attributeerror", True) or \
+                        (len(op) > 3 and op[3] == "pairs"):
                     raise
                 self.hits.append("dictmixin-update-masks-attributeerror")
                 for kk, vv in v:
